@@ -322,7 +322,7 @@ class DOK(SparseArray, NDArrayOperatorsMixin):
         if not isinstance(key, tuple):
             key = (key,)
 
-        if all(isinstance(k, Iterable) for k in key):
+        if len(key) > 0 and all(isinstance(k, Iterable) for k in key):
             if len(key) != self.ndim:
                 raise NotImplementedError(f"Index sequences for all {self.ndim} array dimensions needed!")
             if not all(len(key[0]) == len(k) for k in key):
@@ -350,6 +350,10 @@ class DOK(SparseArray, NDArrayOperatorsMixin):
 
     def __setitem__(self, key, value):
         value = np.asarray(value, dtype=self.dtype)
+
+        # the empty key addresses the whole array, it is not an empty index sequence
+        if isinstance(key, tuple) and len(key) == 0:
+            key = (Ellipsis,)
 
         # 1D fancy indexing
         if self.ndim == 1 and isinstance(key, Iterable) and all(isinstance(i, int | np.integer) for i in key):
